@@ -4,8 +4,10 @@ C07 — Store contract.
 Part (i): the contract is a set of theorems about the reference store `specOps` on every tree state
 (`fs.tree`), which is an invariant of every well-formed history (`spec_tree`).
 Part (ii): the model of `MemoryStore` refines the reference store on every well-formed history
-(`mem_refines`), the proxies are the identity (`proxy_refines`); the model of `FileStore` is tied to the
-reference store by the correspondence stream only (`file_refines_statement`).
+(`mem_refines`), the proxies are the identity (`proxy_refines`); the model of `FileStore` (a POSIX tree with
+`__metadata__/<name>.json` sibling files) refines it on every well-formed history over keys with plain components
+(`file_refines`, simulation `SimF` of `LiquerProofs/Lemmas/StoreFileRef*.lean`), and never fails there
+(`file_never_fails`).
 
 Reads are pure *by construction*: `getBytes`, `getMeta`, `contains`, `isDir`, `keys`, `listdir` of a
 `StoreOps σ` return a value and no state, so no read can change what a later operation sees
@@ -13,6 +15,7 @@ Reads are pure *by construction*: `getBytes`, `getMeta`, `contains`, `isDir`, `k
 -/
 import LiquerProofs.Lemmas.StoreSpec
 import LiquerProofs.Lemmas.StoreMem
+import LiquerProofs.Lemmas.StoreFileRef3
 import LiquerModel.StoreFile
 import LiquerModel.StoreProxy
 
@@ -243,17 +246,72 @@ structure ObsEquivF (a b : KeyObs) : Prop where
 /-- keys a `FileStore` history may use: components that are non-empty, not `.`, `..` or the reserved folder name -/
 def plainComponent (c : Str) : Prop := c ≠ [] ∧ c ≠ dot ∧ c ≠ dotdot ∧ c ≠ metaDirName
 
-/-- full statement of the refinement for the `FileStore` model — **not proved**; the `fileOps` model is tied to
-`specOps` (and to `FileStore`) by the correspondence streams of `harness/props/C07.py` only -/
-def file_refines_statement : Prop :=
-  ∀ (root : Path) (h : List StoreOp), wfHist [] h = true → (∀ op ∈ h, ∀ c ∈ op.key, plainComponent c) →
-    ∀ k : Key, (∀ c ∈ k, plainComponent c) →
-      ObsEquivF ((fileOps root).obs ((fileOps root).run (fileInit root) h) k) (specOps.obs (specOps.run [] h) k) ∧
-      (∃ ks, (fileOps root).keys ((fileOps root).run (fileInit root) h) = .ok ks ∧
-             ks.Perm ((specOps.run [] h).map (·.1)))
+/-- **`FileStore` refines the reference store**: for every root directory, after every well-formed history (any
+length) over keys with plain components, every plain key shows the same `contains`, `is_dir`, metadata fields, the
+same bytes (or a failure on both sides), the same directory listing up to order (the `__metadata__` folders are never
+listed), and `keys()` succeeds and lists the same keys up to order.  The proof is the simulation `SimF`
+(`LiquerProofs/Lemmas/StoreFileRef.lean`): every file of the reference state is a data file at `path_for_key` plus a
+metadata file at `metadata_path_for_key`, every directory a directory node, and there is nothing else below the root
+except `__metadata__` folders inside existing directories. -/
+theorem file_refines (root : Path) (h : List StoreOp) (hwf : wfHist [] h = true)
+    (hn : ∀ op ∈ h, ∀ c ∈ op.key, plainComponent c) (k : Key) (hk : ∀ c ∈ k, plainComponent c) :
+    ObsEquivF ((fileOps root).obs ((fileOps root).run (fileInit root) h) k) (specOps.obs (specOps.run [] h) k) ∧
+    (∃ ks, (fileOps root).keys ((fileOps root).run (fileInit root) h) = .ok ks ∧
+           ks.Perm ((specOps.run [] h).map (·.1))) := by
+  have hs := simF_run (simF_init root) plainFS_nil FS.tree_nil h hn hwf
+  have ht := spec_tree_run FS.tree_nil h hwf
+  have hp := plain_run plainFS_nil h hn
+  obtain ⟨o1, o2, o3, o4, o5⟩ := hs.obs hp ht (k := k) hk
+  exact ⟨⟨o1, o2, o3, o4, o5⟩, hs.keys_perm hp ht⟩
+
+/-- after every prefix of a well-formed history over plain keys the next operation of the `FileStore` model succeeds
+(no `IsADirectoryError`, `NotADirectoryError`, non-empty `rmdir`, or exhausted fuel) -/
+theorem file_never_fails (root : Path) (h : List StoreOp) (op : StoreOp) (hwf : wfHist [] (h ++ [op]) = true)
+    (hn : ∀ o ∈ h ++ [op], ∀ c ∈ o.key, plainComponent c) :
+    ∃ s', (fileOps root).apply ((fileOps root).run (fileInit root) h) op = .ok s' := by
+  have hsplit : ∀ (fs : FS) (h : List StoreOp), wfHist fs (h ++ [op]) = true →
+      wfHist fs h = true ∧ wfOp (specOps.run fs h) op = true := by
+    intro fs h
+    induction h generalizing fs with
+    | nil => intro hw; simpa [wfHist, StoreOps.run] using hw
+    | cons o rest ih =>
+      intro hw
+      simp only [List.cons_append, wfHist, Bool.and_eq_true] at hw
+      obtain ⟨h1, h2⟩ := ih _ hw.2
+      exact ⟨by simp [wfHist, hw.1, h1], by simpa [StoreOps.run] using h2⟩
+  obtain ⟨h1, h2⟩ := hsplit [] h hwf
+  have hnh : ∀ o ∈ h, PlainKey o.key := fun o ho => hn o (List.mem_append_left _ ho)
+  exact file_step_ok (simF_run (simF_init root) plainFS_nil FS.tree_nil h hnh h1) (plain_run plainFS_nil h hnh)
+    (spec_tree_run FS.tree_nil h h1) op (hn op (by simp)) h2
+
+-- non-vacuity: a plain well-formed history with a nested key, an overwrite, a metadata update, a removal and a
+-- recursive removal; the model's own observations (computed, not derived from the theorem)
+def fileDemo : List StoreOp :=
+  [.store [['a'], ['b'], ['d']] [1] { user := ['u'] }, .store [['a'], ['b'], ['d']] [2, 3] { user := ['v'] },
+   .store [['a'], ['e']] [4] { user := ['w'] }, .storeMeta [['a'], ['e']] { user := ['x'] },
+   .remove [['a'], ['b'], ['d']], .makedir [['a'], ['c']], .removedir [['a'], ['b']] true]
+
+example : wfHist [] fileDemo = true := by decide
+example : ∀ op ∈ fileDemo, ∀ c ∈ op.key, plainComponent c := by
+  intro op hop c hc
+  simp only [fileDemo, List.mem_cons, List.not_mem_nil, or_false] at hop
+  rcases hop with rfl | rfl | rfl | rfl | rfl | rfl | rfl <;> simp [StoreOp.key] at hc <;>
+    (try rcases hc with rfl | rfl | rfl) <;> (try rcases hc with rfl | rfl) <;> (try subst hc) <;>
+    exact ⟨by decide, by decide, by decide, by decide⟩
+example : ((fileOps [['r']]).getBytes ((fileOps [['r']]).run (fileInit [['r']]) (fileDemo.take 3)) [['a'], ['b'], ['d']]).toOption
+    = some [2, 3] := by decide +kernel
+example : ((fileOps [['r']]).keys ((fileOps [['r']]).run (fileInit [['r']]) fileDemo)).toOption
+    = some [[['a']], [['a'], ['c']], [['a'], ['e']]] := by decide +kernel
+example : ((fileOps [['r']]).contains ((fileOps [['r']]).run (fileInit [['r']]) fileDemo) [['a'], ['b'], ['d']]).toOption
+    = some false := by decide +kernel
+example : ((fileOps [['r']]).getMeta ((fileOps [['r']]).run (fileInit [['r']]) fileDemo) [['a'], ['e']]).toOption
+    = some { key := [['a'], ['e']], name := ['e'], isDir := false, size := none, md5 := none, user := ['x'] } := by
+  decide +kernel
+-- … and the reference store shows the same (`file_refines` says so for every history)
+example : (specOps.keys (specOps.run [] fileDemo)).toOption = some [[['a'], ['c']], [['a'], ['e']], [['a']]] := by decide +kernel
 
 end Liquer.C07
 
 -- OBLIGATIONS: Liquer.C07.spec_store_read Liquer.C07.spec_store_present Liquer.C07.spec_listed_once Liquer.C07.spec_store_once Liquer.C07.spec_remove Liquer.C07.spec_removedir Liquer.C07.spec_frame Liquer.C07.spec_frame_run Liquer.C07.spec_tree_step Liquer.C07.spec_tree Liquer.C07.spec_reachable_tree
 -- OBLIGATIONS: Liquer.C07.mem_refines Liquer.C07.mem_never_fails Liquer.C07.mem_abs Liquer.C07.proxy_refines
--- STATEMENT-ONLY: Liquer.C07.file_refines_statement
+-- OBLIGATIONS: Liquer.C07.file_refines Liquer.C07.file_never_fails
